@@ -391,8 +391,8 @@ theorem resolved_panic (inp : Pipeline.Input) (hcfg : CfgWF inp.cfg) (s : String
       rw [hm] at h
       simp only at h
       have hmo := merged_ok hcfg hpo (mergePluralsAll_ok _ _ _ _ _ hm)
-      obtain ⟨hpan, _⟩ := resolveAll_stage inp.oracle inp.cfg.default 1000000 paths _ hmo.inv hmo.findable
-      cases hr : Foreign.resolveAll inp.oracle inp.cfg.default 1000000 paths { w with nss := nss } with
+      obtain ⟨hpan, _⟩ := resolveAll_stage inp.oracle ⟨inp.cfg.default, inp.cfg.inherits⟩ 1000000 paths _ hmo.inv hmo.findable
+      cases hr : Foreign.resolveAll inp.oracle ⟨inp.cfg.default, inp.cfg.inherits⟩ 1000000 paths { w with nss := nss } with
       | err e => rw [hr] at h; simp at h
       | panic p =>
         rw [hr] at h
@@ -420,8 +420,8 @@ theorem resolved_ok (inp : Pipeline.Input) (hcfg : CfgWF inp.cfg) (w : World) (w
       rw [hm] at h
       simp only at h
       have hmo := merged_ok hcfg hpo (mergePluralsAll_ok _ _ _ _ _ hm)
-      obtain ⟨_, hok⟩ := resolveAll_stage inp.oracle inp.cfg.default 1000000 paths _ hmo.inv hmo.findable
-      cases hr : Foreign.resolveAll inp.oracle inp.cfg.default 1000000 paths { w0 with nss := nss } with
+      obtain ⟨_, hok⟩ := resolveAll_stage inp.oracle ⟨inp.cfg.default, inp.cfg.inherits⟩ 1000000 paths _ hmo.inv hmo.findable
+      cases hr : Foreign.resolveAll inp.oracle ⟨inp.cfg.default, inp.cfg.inherits⟩ 1000000 paths { w0 with nss := nss } with
       | err e => rw [hr] at h; simp at h
       | panic p => rw [hr] at h; simp at h
       | ok w'' =>
